@@ -839,9 +839,14 @@ def run(pid, tier, replay=None):
             summ, h_, txs_ = c_i.construct_block_pow_evidence_input(cs_i, [ti[1002]], PK_i(keys.pub[2]), now_i, b"", 7)
             return (summ.serialize().hex(), [o.value for o in txs_[0].outputs], len(txs_))
         ref = fa()
-        if ref[:3].count("accepted") or ref[3] != "accepted":
-            return machinery_failure(pid, "interference scenario: sequential verdicts are %s" % ref)
-        itr = interfere.explore_pair(chk, pid, "verdict_of_full_validation", fa, fb, quick, rng, max_points=60 if quick else 2000)
+        own = {"C02": 0, "C01": 1, "C05": 2}[pid]
+        if ref[own] == "accepted":
+            chk.violation("%s:block_that_breaks_this_property_s_rule_passes_full_validation" % pid, {"offered": ["reward above subsidy + fees", "spend not authorised by the owner",
+                          "timestamp not later than the parent's", "valid"][own], "verdicts": ref})
+        skip_interference = ref[:3].count("accepted") or ref[3] != "accepted"
+        if skip_interference:
+            chk.notes.append("interference stage skipped: the sequential verdicts are already %s" % ref)
+        itr = [] if skip_interference else interfere.explore_pair(chk, pid, "verdict_of_full_validation", fa, fb, quick, rng, max_points=60 if quick else 2000)
         # the rule this property is about, alone, with EVERY preemption point explored
 
         def verdict(f_, *a_):
@@ -862,7 +867,7 @@ def run(pid, tier, replay=None):
             def ff():
                 return [verdict(c_i.validate_block_summary_in_coinstate, x_.header.summary, cs_i) for x_ in (x_ts, bi[2])] + \
                        [c_i.calc_target(cs_i, 2, now_i, bi[1]).hex()]
-        itr2 = interfere.explore_pair(chk, pid, "verdict_of_the_rule", ff, fb, quick, rng, max_points=4000)
+        itr2 = [] if skip_interference else interfere.explore_pair(chk, pid, "verdict_of_the_rule", ff, fb, quick, rng, max_points=4000)
         interfere.judge(chk, itr + itr2, pid)
         # ---- and a block that fails this property's rule stays out of the node's chain state and store whatever the miner's thread does meanwhile
         from checks import handover
